@@ -2,7 +2,8 @@
 
 K  the real oracles vs the Lean model `PySMT/Impl/Oracles.lean` (driver C12), results as sorted canonical lists;
    the regenerated operator-class tables vs `pysmt.operators`; `expand_types` on explicit lists, exact order.
-S  (independent of the model)
+S  (independent of the model; also on *query histories*: several formulas sharing sub-terms on one fresh
+   environment, queried in random order and mode -- the answers must not depend on what was asked before)
    * direct structural definitions, written here from the property text, of: free symbols, atoms, quantifier
      freeness, sorts (+ "sub-sorts first, no duplicates" for the returned list), the six size measures;
    * semantic dependence through the shared `Sem` driver (`evalc`): two interpretations that differ only on a
@@ -30,7 +31,12 @@ RULE = ("type-directed random formulas and terms of every sort (Bool/Int/Real/BV
         "Boolean terms inside theory terms (ITE conditions, Boolean arguments, Boolean array elements), shared "
         "sub-DAGs; every oracle and all six size measures on every case; a case is non-trivial when the formula "
         "has at least two nodes; distinct = distinct wire encodings. Extra streams: parametric custom sorts "
-        "(S only: the wire format has no sort arguments), explicit type lists for expand_types.")
+        "(S only: the wire format has no sort arguments), explicit type lists for expand_types, and query "
+        "histories: on a fresh environment 3-10 formulas sharing sub-terms (a quantifier whose body is directly a "
+        "predicate application over the bound variables + that application + formulas sharing it; atoms in which "
+        "a sort occurs only on a constant; declared sorts named Int/Bool/Real/String next to the built-in sort; "
+        "random formulas with their sub-terms) queried 2n+3 times in random order over fv / types / "
+        "types(custom_only) / atoms / qf / size, every answer compared with the structural definition.")
 ASSUMPTIONS = [
     "hash-consing (C04): distinct FNode objects are distinct structures, so DAG measures count objects",
     "interpretations sampled, not enumerated: the semantic dependence tests are one-sided (they can only refute)",
@@ -53,6 +59,20 @@ class Gen12(gen.FormulaGen):
 
     def _gen_op(self, ty, depth):
         m, r, u = self.m, self.rng, self.u
+        if ty.is_bool_type() and "quant" in u.theories and "uf" in u.theories and r.random() < 0.05:
+            # a quantifier whose body is *directly* a predicate application over the bound variables, the
+            # same application used again outside the binder
+            q, app = direct_application_quantifier(r, u, lambda t, d: self.gen(t, d), depth)
+            if q is not None:
+                k = r.random()
+                if k < 0.5:
+                    parts = [q, app]
+                elif k < 0.75:
+                    parts = [q, self._pick([m.Not, lambda a: m.Or(a, self.gen(BOOL, depth - 2))])(app)]
+                else:
+                    parts = [q, self.gen(BOOL, depth - 2)]
+                r.shuffle(parts)
+                return self._pick([m.And, m.Or, m.Implies, m.Iff])(parts[0], parts[1])
         if ty.is_bool_type() and "quant" in u.theories and r.random() < 0.12:
             # a quantifier whose bound variable also occurs free in a sibling
             v = self._pick(u.qvars)
@@ -85,6 +105,37 @@ class Gen12(gen.FormulaGen):
             c = self.gen(BOOL, depth - 1)
             return m.Ite(c, self.gen(ty, depth - 1), self.gen(ty, depth - 1))
         return gen.FormulaGen._gen_op(self, ty, depth)
+
+
+def direct_application_quantifier(r, u, gen_term, depth):
+    """-> (Q vs . P(.., v, ..) possibly nested Q v1. Q' v2. P(..), the application P(..)) or (None, None)"""
+    m = u.mgr
+    preds = [f for f in u.funs if f.symbol_type().return_type.is_bool_type()]
+    r.shuffle(preds)
+    for P in preds:
+        pts = list(P.symbol_type().param_types)
+        cands = [[v for v in u.qvars if v.symbol_type() == t] for t in pts]
+        pos = [i for i, c in enumerate(cands) if c]
+        if not pos:
+            continue
+        chosen = r.sample(pos, r.randint(1, len(pos)))
+        args, vs = [], []
+        for i, t in enumerate(pts):
+            if i in chosen:
+                v = r.choice(cands[i])
+                args.append(v)
+                if v not in vs:
+                    vs.append(v)
+            else:
+                args.append(gen_term(t, min(1, max(depth - 2, 0))))
+        app = m.Function(P, args)
+        Q = lambda: (m.ForAll if r.random() < 0.5 else m.Exists)
+        if len(vs) >= 2 and r.random() < 0.6:
+            q = Q()(vs[:1], Q()(vs[1:], app))
+        else:
+            q = Q()(vs, app)
+        return q, app
+    return None, None
 
 
 def make_universe(env):
@@ -190,13 +241,41 @@ def type_args(t):
     return []
 
 
+def tkey(t):
+    """structural identity of a sort, independent of PySMTType.__eq__/__hash__: the built-in sorts are
+    recognised by their class predicates, a declared sort by (name, arity, argument keys) -- so the declared
+    sort |Int| and the built-in Int have different keys"""
+    if t.is_function_type():
+        return ("fun", tkey(t.return_type), tuple(tkey(p) for p in t.param_types))
+    if t.is_array_type():
+        return ("array", tkey(t.index_type), tkey(t.elem_type))
+    if t.is_bv_type():
+        return ("bv", t.width)
+    if t.is_bool_type():
+        return ("bool",)
+    if t.is_int_type():
+        return ("int",)
+    if t.is_real_type():
+        return ("real",)
+    if t.is_string_type():
+        return ("string",)
+    return ("decl", t.basename, t.arity, tuple(tkey(a) for a in (t.args or ())))
+
+
+def is_declared(t):
+    return not (t.is_bool_type() or t.is_int_type() or t.is_real_type() or t.is_bv_type() or
+                t.is_array_type() or t.is_string_type())
+
+
 def close_types(base):
-    out, stack = set(), list(base)
+    """closure under sub-sorts; -> {key: sort}"""
+    out, stack = {}, list(base)
     while stack:
         t = stack.pop()
-        if t in out:
+        k = tkey(t)
+        if k in out:
             continue
-        out.add(t)
+        out[k] = t
         stack.extend(type_args(t))
     return out
 
@@ -204,30 +283,55 @@ def close_types(base):
 def d_types(f, get_type):
     """sorts written in the formula: of symbols, bound variables, function signatures, constants and array
     values; closed under sub-sorts"""
-    base = set()
+    base = []
     for n in dag_nodes(f):
         nt = n.node_type()
         if nt == op.SYMBOL:
-            base.add(n.symbol_type())
+            base.append(n.symbol_type())
         elif nt == op.FUNCTION:
             ft = n.function_name().symbol_type()
-            base.add(ft.return_type)
-            base.update(ft.param_types)
+            base.append(ft.return_type)
+            base.extend(ft.param_types)
         elif is_quant(n):
-            base.update(v.symbol_type() for v in n.quantifier_vars())
+            base.extend(v.symbol_type() for v in n.quantifier_vars())
         elif nt == op.BOOL_CONSTANT:
-            base.add(BOOL)
+            base.append(BOOL)
         elif nt == op.INT_CONSTANT:
-            base.add(INT)
+            base.append(INT)
         elif nt in (op.REAL_CONSTANT, op.ALGEBRAIC_CONSTANT):
-            base.add(REAL)
+            base.append(REAL)
         elif nt == op.STR_CONSTANT:
-            base.add(STRING)
+            base.append(STRING)
         elif nt == op.BV_CONSTANT:
-            base.add(BVType(n.bv_width()))
+            base.append(BVType(n.bv_width()))
         elif nt == op.ARRAY_VALUE:
-            base.add(ArrayType(n.array_value_index_type(), get_type(n.array_value_default())))
+            base.append(ArrayType(n.array_value_index_type(), get_type(n.array_value_default())))
     return close_types(base)
+
+
+def types_problems(f, get_type, tys, custom_only=False):
+    """[(check, kind, message)] : what is wrong with the list `tys` returned by get_types(f, custom_only)"""
+    out = []
+    dt = d_types(f, get_type)
+    if custom_only:
+        dt = {k: t for k, t in dt.items() if is_declared(t)}
+    keys = [tkey(t) for t in tys]
+    if set(keys) != set(dt):
+        missing = sorted(str(dt[k]) + ("" if not is_declared(dt[k]) else " (declared)") for k in set(dt) - set(keys))
+        out.append(("structural", "missing" if missing else "extra",
+                    "types reported %s%s, definition gives %s%s" % (
+                        list(map(str, tys)), " (custom_only)" if custom_only else "",
+                        sorted(str(t) + (" (declared)" if is_declared(t) else "") for t in dt.values()),
+                        (", missing " + ", ".join(missing)) if missing else "")))
+    if len(set(keys)) != len(keys):
+        out.append(("duplicates", None, "get_types returned duplicates: %s" % list(map(str, tys))))
+    for i, t in enumerate(tys):
+        bad = [a for a in type_args(t) if tkey(a) not in keys[:i]]
+        if bad and not custom_only:
+            out.append(("order", None, "get_types lists %s before its sub-sort %s: %s" % (
+                t, bad[0], list(map(str, tys)))))
+            break
+    return out
 
 
 def is_theory_atom_leaf(n, get_type):
@@ -429,27 +533,15 @@ def process(ctx, env, uni, cases, do_k=True):
         if qf != d_qf(f):
             report_s(ctx, {"oracle": "qf", "check": "structural", "root": root(f)},
                          "is_qf = %r but the formula %s a quantifier" % (qf, "contains" if qf else "has no"), rep0)
-        dt = d_types(f, get_type)
-        if set(tys) != dt:
-            report_s(ctx, {"oracle": "types", "check": "structural", "root": root(f),
-                          "kind": "missing" if dt - set(tys) else "extra"},
-                         "types reported %s, definition gives %s" % (
-                             sorted(map(str, tys)), sorted(map(str, dt))), rep0)
-        if len(set(tys)) != len(tys):
-            report_s(ctx, {"oracle": "types", "check": "duplicates", "root": root(f)},
-                         "get_types returned duplicates: %s" % list(map(str, tys)), rep0)
-        for i, t in enumerate(tys):
-            bad = [a for a in type_args(t) if a not in tys[:i]]
-            if bad:
-                report_s(ctx, {"oracle": "types", "check": "order", "root": root(f)},
-                             "get_types lists %s before its sub-sort %s: %s" % (t, bad[0], list(map(str, tys))),
-                             rep0)
-                break
-        want_custom = [t for t in tys if not (t.is_bool_type() or t.is_int_type() or t.is_real_type() or
-                                              t.is_bv_type() or t.is_array_type() or t.is_string_type())]
-        if tys_custom != want_custom:
+        for chk, kind, msg in types_problems(f, get_type, tys):
+            sig = {"oracle": "types", "check": chk, "root": root(f)}
+            if kind:
+                sig["kind"] = kind
+            report_s(ctx, sig, msg, rep0)
+        want_custom = [tkey(t) for t in tys if is_declared(t)]
+        if [tkey(t) for t in tys_custom] != want_custom or types_problems(f, get_type, tys_custom, True):
             report_s(ctx, {"oracle": "types", "check": "custom_only", "root": root(f)},
-                         "custom_only=True gives %s, expected %s" % (tys_custom, want_custom), rep0)
+                         "custom_only=True gives %s, all types are %s" % (tys_custom, tys), rep0)
         for m in MEASURES:
             ds = d_size(f, m, get_type)
             if ds != sizes[m]:
@@ -645,12 +737,12 @@ def check_expand(ctx, env, uni, n, given=None):
         rep = {"types": list(map(str, ts)), "impl": list(map(str, got)),
                "expand": "expand %d %s" % (len(ts), " ".join(wire.enc_type(t) for t in ts))}
         ctx.case("expand " + repr(rep["types"]) if ts else None)
-        if set(got) != close_types(ts) or len(set(got)) != len(got):
+        if set(map(tkey, got)) != set(close_types(ts)) or len(set(map(tkey, got))) != len(got):
             report_s(ctx, {"oracle": "types", "check": "expand-closure"},
                          "expand_types(%s) = %s is not the duplicate-free closure under sub-sorts" % (
                              rep["types"], rep["impl"]), rep)
         for i, t in enumerate(got):
-            if any(a not in got[:i] for a in type_args(t)):
+            if any(tkey(a) not in [tkey(x) for x in got[:i]] for a in type_args(t)):
                 report_s(ctx, {"oracle": "types", "check": "order"},
                              "expand_types(%s) lists %s before one of its sub-sorts: %s" % (
                                  rep["types"], t, rep["impl"]), rep)
@@ -711,6 +803,160 @@ def parametric_cases(ctx, env, n):
     return out
 
 
+# ------------------------------------------------------------------------------------------ query histories
+QUERY_WEIGHTS = [("fv", 4), ("types", 3), ("ctypes", 3), ("atoms", 1), ("qf", 1), ("size", 1)]
+
+
+def sub_formulas(f, rng, k):
+    """a few proper sub-terms, bodies of quantifiers first"""
+    nodes = [n for n in dag_nodes(f) if n is not f and n.args()]
+    bodies = [n.arg(0) for n in dag_nodes(f) if is_quant(n)]
+    out = list(dict.fromkeys(bodies + (rng.sample(nodes, min(k, len(nodes))) if nodes else [])))
+    return out[:k + 2]
+
+
+def history_formulas(rng, env, uni):
+    """formulas that share sub-terms, built on a fresh environment"""
+    m, tm = env.formula_manager, env.type_manager
+    fg = Gen12(rng, uni, max_depth=3, quant_prob=0.15, share_prob=0.5)
+    gb = lambda d=2: fg.gen(BOOL, d)
+    out = []
+    kinds = rng.sample(["app", "const-sort", "named", "random"], rng.randint(1, 3))
+    if "app" in kinds:
+        q, app = direct_application_quantifier(rng, uni, lambda t, d: fg.gen(t, d), 3)
+        if q is not None:
+            out.append(q)
+            if is_quant(q.arg(0)):
+                out.append(q.arg(0))
+            out.append(app)
+            out.append(rng.choice([m.And, m.Or])(app, gb()))
+            out.append(rng.choice([m.And, m.Or])(q, app))
+    if "const-sort" in kinds:
+        # atoms in which a sort occurs only as the sort of a constant
+        k = rng.choice(["strlen", "toreal", "bv2nat", "extract", "zext", "select"])
+        s_ = uni.syms.get(STRING, [None])[0]
+        x_ = uni.syms[INT][0]
+        if k == "strlen" and s_ is not None:
+            atom = m.LT(m.Int(rng.choice([0, 3])), m.StrLength(fg.gen(STRING, 1) if rng.random() < 0.5 else s_))
+        elif k == "toreal":
+            atom = m.LT(m.ToReal(x_), m.Real(2))
+        elif k == "bv2nat":
+            atom = m.LE(m.BVToNatural(uni.syms[BVType(4)][0]), m.Int(3))
+        elif k == "extract":
+            atom = m.BVULT(m.BVExtract(uni.syms[BVType(8)][0], 0, 3), m.BV(5, 4))
+        elif k == "zext":
+            atom = m.Equals(m.BVZExt(uni.syms[BVType(2)][0], 1), m.BV(5, 3))
+        else:
+            atom = m.Equals(m.Select(uni.syms[ArrayType(BVType(2), BVType(2))][0], m.BV(1, 2)),
+                            uni.syms[BVType(2)][1])
+        out.append(rng.choice([m.And, m.Or])(atom, gb()))
+        out.append(rng.choice([m.And, m.Or, m.Implies])(gb(), atom))
+        out.append(atom)
+    if "named" in kinds:
+        # declared sorts named like built-in ones, together with the built-in sort
+        nm = rng.choice(["Int", "Bool", "Real", "String"])
+        D = tm.Type(nm, 0)
+        builtin = {"Int": INT, "Bool": BOOL, "Real": REAL, "String": STRING}[nm]
+        xd, yd = m.Symbol("xd" + nm, D), m.Symbol("yd" + nm, D)
+        bs = m.Symbol("zb" + nm, builtin)
+        eqd = m.Equals(xd, yd)
+        eqb = m.Iff(bs, gb(1)) if nm == "Bool" else m.Equals(bs, fg.gen(builtin, 1))
+        parts = [eqd, eqb]
+        rng.shuffle(parts)
+        out.append(m.And(parts))
+        pd = m.Symbol("pd" + nm, FunctionType(BOOL, [D]))
+        fd = m.Symbol("fd" + nm, FunctionType(builtin, [D]))
+        ud = m.Symbol("ud" + nm, D)
+        out.append((m.ForAll if rng.random() < 0.5 else m.Exists)([ud], m.Function(pd, [ud])))
+        out.append(m.Iff(m.Function(pd, [xd]), bs) if nm == "Bool" else
+                   m.Equals(m.Function(fd, [xd]), bs))
+    if "random" in kinds or not out:
+        f = fg.gen(BOOL, rng.choice([2, 3]))
+        out.append(f)
+        out.extend(sub_formulas(f, rng, 2))
+        out.append(rng.choice([m.And, m.Or])(f, gb()))
+    if out and rng.random() < 0.5:
+        out.extend(sub_formulas(rng.choice(out), rng, 1))
+    return list(dict.fromkeys(out))
+
+
+def history_queries(rng, n):
+    kinds = [k for k, w in QUERY_WEIGHTS for _ in range(w)]
+    qs = []
+    for _ in range(2 * n + 3):
+        k = rng.choice(kinds)
+        qs.append([k, rng.randrange(n), rng.choice(MEASURES) if k == "size" else 0])
+    return qs
+
+
+def exec_history(ctx, env, formulas, queries, rep_base):
+    """run the queries in order on the one environment; every answer is compared with the structural
+    definition (computed from the node accessors only, no oracle involved)"""
+    get_type = env.stc.get_type
+    for j, (kind, i, arg) in enumerate(queries):
+        f = formulas[i]
+        rep = dict(rep_base, failed_query=j, formula=semantic.readable(f),
+                   query="%s(#%d%s)" % (kind, i, (", " + MEASURE_NAMES[arg]) if kind == "size" else ""))
+        sig = {"check": "history", "query": kind}
+        ctx.count("hq_" + kind)
+        if kind == "fv":
+            got, want = f.get_free_variables(), d_fv(f)
+            if set(got) != want:
+                report_s(ctx, dict(sig, oracle="fv", kind="missing" if want - set(got) else "extra"),
+                         "query %d of the history: free symbols of %s reported %s, definition gives %s" % (
+                             j, rep["formula"], sorted(map(str, got)), sorted(map(str, want))), rep)
+        elif kind in ("types", "ctypes"):
+            co = kind == "ctypes"
+            got = env.typeso.get_types(f, custom_only=co)
+            for chk, knd, msg in types_problems(f, get_type, got, co):
+                report_s(ctx, dict(sig, oracle="types", sub=chk, kind=knd or ""),
+                         "query %d of the history on %s: %s" % (j, rep["formula"], msg), rep)
+        elif kind == "atoms":
+            akind, atoms = impl_atoms(env, f)
+            if get_type(f).is_bool_type():
+                want = d_atoms(f, get_type)
+                if akind != "atoms" or atoms != want:
+                    report_s(ctx, dict(sig, oracle="atoms"),
+                             "query %d of the history: atoms of %s reported %s, definition gives %s" % (
+                                 j, rep["formula"], akind if atoms is None else sorted(map(str, atoms)),
+                                 sorted(map(str, want))), rep)
+            elif akind != "theory":
+                report_s(ctx, dict(sig, oracle="atoms"),
+                         "query %d of the history: atoms walk of the non-Boolean %s gave %s" % (
+                             j, rep["formula"], akind), rep)
+        elif kind == "qf":
+            if env.qfo.is_qf(f) != d_qf(f):
+                report_s(ctx, dict(sig, oracle="qf"),
+                         "query %d of the history: is_qf(%s) = %r" % (j, rep["formula"], not d_qf(f)), rep)
+        elif kind == "size":
+            got, want = f.size(arg), d_size(f, arg, get_type)
+            if got != want:
+                report_s(ctx, dict(sig, oracle="size", measure=MEASURE_NAMES[arg]),
+                         "query %d of the history: size(%s, %s) = %d, definition gives %d" % (
+                             j, rep["formula"], MEASURE_NAMES[arg], got, want), rep)
+
+
+def check_histories(ctx, n):
+    """query histories on one (fresh) environment: the answers must not depend on what was asked before"""
+    for _ in range(n):
+        sub = ctx.rng.getrandbits(48)
+        rng = random.Random(sub)
+        env = Environment()
+        uni = make_universe(env)
+        try:
+            formulas = history_formulas(rng, env, uni)
+            terms = [wire.enc_term(f) for f in formulas]
+        except wire.OutOfFragment:
+            ctx.count("out_of_fragment")
+            continue
+        queries = history_queries(rng, len(formulas))
+        ctx.case("history " + repr((terms, queries)))
+        ctx.count("histories")
+        exec_history(ctx, env, formulas, queries,
+                     {"history": {"terms": terms, "queries": queries}, "subseed": sub,
+                      "formulas": [semantic.readable(f, 160) for f in formulas]})
+
+
 # ------------------------------------------------------------------------------------------ entry points
 def run(ctx):
     warnings.filterwarnings("ignore")
@@ -720,6 +966,7 @@ def run(ctx):
     uni = make_universe(env)
     check_tables(ctx)
     check_expand(ctx, env, uni, 150 if quick else 3000)
+    check_histories(ctx, 250 if quick else 5000)
     batch = 1200 if quick else 3000
     done = 0
     while done < n:
@@ -738,9 +985,22 @@ def run(ctx):
 
 
 def replay(ctx, rep):
+    warnings.filterwarnings("ignore")
     r = rep["replay"]
     env = Environment()
     uni = make_universe(env)
+    if "history" in r:
+        h = r["history"]
+        formulas = [build_fnode(env, wire.dec_term(t)) for t in h["terms"]]
+        for i, f in enumerate(formulas):
+            print("#%d: %s" % (i, semantic.readable(f)))
+        print("queries:", " ".join("%s(#%d)" % (k, i) for k, i, _ in h["queries"]))
+        exec_history(ctx, env, formulas, [tuple(q) for q in h["queries"]], {"history": h})
+        if not ctx.s_violations:
+            print("replay: the history does not fail on this tree")
+        for v in ctx.s_violations:
+            print("S:", v["what"])
+        return
     if "expand" in r:
         tk = wire.Tok(r["expand"])
         tk.next()
